@@ -53,16 +53,28 @@ def _par(s):
     return s if s.isalnum() else "(" + s + ")"
 
 
+def _tower(s):
+    """a symbol-free subformula that itself contains a power: as an exponent it makes sympy compute astronomically
+    large integers (10**(5**(4**3))) inside C code that no time limit can interrupt -- not generated"""
+    return re.search(r'\b(x|a\d+)\b', s) is None and any(t in s for t in ("**", "pow(", "tenexp(", "exp(", "square(", "cube("))
+
+
 def gen_formula(r, basis, depth):
     if depth == 0 or r.random() < 0.18:
         return _leaf(r)
     un, bi = basis[1], basis[2]
     if r.random() < 0.30 and un:
-        return "%s(%s)" % (r.choice(un), gen_formula(r, basis, depth - 1))
+        f = r.choice(un)
+        a = gen_formula(r, basis, depth - 1)
+        if f in ("tenexp", "exp") and _tower(a):
+            a = _leaf(r)
+        return "%s(%s)" % (f, a)
     op = r.choice(bi + ["**", "neg"])
     if op == "neg":
         return "-" + _par(gen_formula(r, basis, depth - 1))
     a, b = gen_formula(r, basis, depth - 1), gen_formula(r, basis, depth - 1)
+    if op in ("pow", "**") and _tower(b):
+        b = _leaf(r)
     if op == "pow":
         return "pow(%s,%s)" % (a, b)
     if op == "**":
@@ -97,7 +109,9 @@ def run_impl(ctx, cases, shard=400):
         if rc != 0:
             raise RuntimeError("c18_impl failed: " + err[-1500:])
         res += json.loads(out)
-    return res
+    timed_out = [[r["basis"], r["formula"]] for r in res if r.get("timeout")]
+    ctx.timed_out = getattr(ctx, "timed_out", []) + timed_out
+    return [r for r in res if not r.get("timeout")]
 
 
 # ------------------------------------------------------------------ Coq literals
@@ -159,6 +173,7 @@ def correspondence(ctx):
     tot_parse = tot_node = tot_fit = 0
     unsupported = {}
     skipped_node = 0
+    dom = {}
     for k in range(0, len(recs), shard):
         defs, names = [], {}
         tl_cases, nd_cases, ft_cases = [], [], []
@@ -220,7 +235,13 @@ def correspondence(ctx):
         v += 'Eval vm_compute in ("TL", failing (fun c => match c with (b, e, x) => ostrs_eqb (tl b e) x end) tl_cases).\n'
         v += 'Eval vm_compute in ("ND", failing (fun c => match c with (b, ps, x) => ostrs_eqb (nd b ps) x end) nd_cases).\n'
         v += 'Eval vm_compute in ("FT", failing (fun c => match c with (b, rf, ps, x) => ostrs_eqb (ft b rf ps) x end) ft_cases).\n'
-        rc, flat, res = coq_eval(v, ["TL", "ND", "FT"])
+        v += ('Eval vm_compute in ("DOM", [length (filter (fun c => match c with (b, e, _) => supportedb e end) tl_cases); '
+              'length (filter (fun c => match c with (b, e, _) => supportedb e && exactb e end) tl_cases); '
+              'length (filter (fun c => match c with (b, e, _) => supportedb e && match decorate b e with Some d => negb (no_bad b d) | None => false end end) tl_cases)]).\n')
+        rc, flat, res = coq_eval(v, ["TL", "ND", "FT", "DOM"])
+        if res.get("DOM") and len(res["DOM"]) == 3:
+            for i_, k_ in enumerate(("in_fragment", "in_fragment_and_exact", "in_fragment_but_defective_branch")):
+                dom[k_] = dom.get(k_, 0) + res["DOM"][i_]
         tot_parse += len(tl_cases)
         tot_node += len(nd_cases)
         tot_fit += len(ft_cases)
@@ -235,19 +256,300 @@ def correspondence(ctx):
     rep.traces += tot_parse + tot_node + tot_fit
     rep.extra["correspondence"] = {"formulas": len(recs), "parse_dumps_compared": tot_parse, "string_to_node_compared": tot_node,
                                    "fit_labels_compared": tot_fit, "unsupported_dumps": unsupported,
-                                   "string_to_node_skipped_unsupported_candidate": skipped_node}
+                                   "string_to_node_skipped_unsupported_candidate": skipped_node,
+                                   "dumps_in_theorem_domain": dom,
+                                   "formulas_set_aside_sympy_over_30s": getattr(ctx, "timed_out", [])[:10]}
     rep.rule = ("%d fixed + %d grammar formulas (x, a0..a2, integers, decimals, unary/binary operators of the basis, **, unary minus; depth<=4) "
                 "round-robin over the six shipped bases; each of the four sympy parses with and without evalf dumped structurally; "
                 "model (vm_compute) vs real DecoratedNode.to_list, count_nodes, string_to_node (evalf False/True) and fit_from_string's "
                 "labels (replace_floats False/True, single_function stubbed)" % (len(FIXED), n))
 
 
+# ------------------------------------------------------------------ spec side
+
+def _spec_relab(l):
+    return {"Mul": "*", "Add": "+", "Div": "/", "Sub": "-"}.get(l, l.lower())
+
+
+def _is_num(l):
+    return re.fullmatch(r'-?\d+(\.\d*)?(e[+-]?\d+)?|-?\d+/\d+', l) is not None
+
+
+def _is_par(l):
+    return re.fullmatch(r'a\d+', l) is not None
+
+
+def _unknown(lo, l):
+    return not (_is_num(l) or _is_par(l) or l == "x" or l in lo.ARITY or l in ("nan", "zoo", "oo", "-oo", "i", "e", "pi"))
+
+
+def _formula_fn(lo, s):
+    """the formula itself under ESR's reading (pow/sqrt/log through absolute values); a point where an infix `**`
+    or a pow(.,.) has a non-positive base is outside the property's domain (Undefined => skipped)"""
+    ns0 = dict(lo.esr_namespace('esr'))
+
+    def strict_pow(a, b):
+        if not (a > 0):
+            raise lo.Undefined('non-positive power base')
+        return lo.mp.power(a, b)
+    ns0['__pow'] = strict_pow
+    ns0['pow'] = strict_pow      # pow(a,b) is |a|**b for ESR but a**b for the kernS parses: they agree for a > 0 only
+    code = lo.compile_expr(s)
+
+    def f(x, th):
+        ns = dict(ns0)
+        ns['x'] = x
+        for i, v in enumerate(th):
+            ns['a%d' % i] = v
+        try:
+            return lo._fin(eval(code, {'__builtins__': {}}, ns))
+        except lo.Undefined:
+            raise
+        except (ZeroDivisionError, OverflowError, ValueError, TypeError, NameError) as e:
+            raise lo.Undefined('%s: %s' % (type(e).__name__, e))
+    return f
+
+
+def _labels_fn(lo, labels):
+    tree, j = lo.parse_tree(labels, 0)
+
+    def g(x, th):
+        try:
+            return lo._fin(lo.eval_tree(tree, x, th))
+        except lo.Undefined:
+            raise
+        except (ZeroDivisionError, OverflowError, ValueError, TypeError, IndexError) as e:
+            raise lo.Undefined(str(e))
+    return g
+
+
+def _parents(lo, labels):
+    """parent label of every position, from the independent prefix parser"""
+    out = [None] * len(labels)
+
+    def walk(i, par):
+        out[i] = par
+        a = lo.ARITY.get(labels[i], 0)
+        j = i + 1
+        for _ in range(a):
+            j = walk(j, labels[i])
+        return j
+    walk(0, None)
+    return out
+
+
+def _in_exponent(lo, labels):
+    """positions lying anywhere inside the second argument of a pow"""
+    flag = [False] * len(labels)
+
+    def walk(i, inside):
+        flag[i] = inside
+        a = lo.ARITY.get(labels[i], 0)
+        j = i + 1
+        for k in range(a):
+            j = walk(j, inside or (labels[i] == 'pow' and k == 1))
+        return j
+    walk(0, False)
+    return flag
+
+
+def _same(lo, f, g, rng, npar):
+    pts = lo.gen_points(rng, npar, 8)
+    res, det = lo.same_function(f, g, pts)
+    if res == 'undecided':
+        res, det = lo.same_function(f, g, lo.gen_points(rng, npar, 40))
+    if res == 'diff':
+        # 15-digit printing of constants: only a difference that survives a looser comparison counts
+        u, v = lo.mp.mpf(det['lhs']), lo.mp.mpf(det['rhs'])
+        if abs(u - v) <= lo.mp.mpf(10) ** -9 * (1 + abs(u) + abs(v)):
+            return 'ok', None
+    return res, det
+
+
 def search(ctx):
-    pass
+    rep = ctx.report
+    sys.path.insert(0, os.path.join(esrv.VERIF, "harness", "lib"))
+    import liboracle as lo
+    recs = getattr(ctx, "recs", None)
+    if ctx.replay and isinstance(ctx.replay.get("input"), dict) and "formula" in ctx.replay["input"]:
+        recs = run_impl(ctx, [[ctx.replay["input"]["basis"], ctx.replay["input"]["formula"]]])
+    if recs is None:
+        recs = run_impl(ctx, gen_cases(ctx.seed, 300 if ctx.quick else 5000))
+    rng = esrv.rng(ctx.seed, "C18/points")
+    stats = {"checked_function": 0, "undecided": 0, "skipped_symbolic_leaf": 0, "nested_exponent_constant_replaced": 0,
+             "raises": {}, "f5": 0, "abs": 0, "drops_operand": 0, "root_number": 0, "outside_fragment": 0}
+    nested_example = None
+    seen_keys = {}
+
+    def fail(what, key, **kw):
+        seen_keys[key] = seen_keys.get(key, 0) + 1
+        if seen_keys[key] <= 3:
+            rep.fail("failing-input", what, key, **kw)
+
+    for r in recs:
+        bname, s = r["basis"], r["formula"]
+        basis = BASES[bname]
+        flat = [x for sub in basis for x in sub]
+        npar = max([int(m) + 1 for m in re.findall(r'\ba(\d+)\b', s)] + [1])
+        try:
+            f = _formula_fn(lo, s)
+        except Exception:
+            continue
+        entries = []    # (entry point, evalf, rf, relabelled labels | None, reported complexity | None, exception | None)
+        nd = r["node"]["0"]
+        entries.append(("generator.string_to_node(s, basis)", None,
+                        None if "exc" in nd else [_spec_relab(l) for l in nd["labels"]],
+                        nd.get("count"), nd.get("exc")))
+        for rf in ("0", "1"):
+            ft = r["fit"][rf]
+            af = r["aifeyn"][rf]
+            entries.append(("fit_single.fit_from_string(s, basis, replace_floats=%s) [labels]" % (rf == "1"), rf,
+                            ft.get("labels"), af.get("compl"), ft.get("exc")))
+        base_labels = None
+        for entry, rf, labels, compl, exc in entries:
+            inp = {"basis": bname, "formula": s, "entry": entry}
+            if exc is not None:
+                # what the user observes is an exception: classify it
+                nl = [_spec_relab(l) for l in r["node"]["1"].get("labels", [])]
+                stats["raises"][exc] = stats["raises"].get(exc, 0) + 1
+                if exc == "ValueError" and any(l in ("sqrt", "log") and l not in flat for l in nl):
+                    stats["f5"] += 1
+                    fail("a formula over the basis is converted to the labels %r: 'sqrt'/'log' are not basis labels (the basis spells them "
+                         "sqrt_abs/log_abs) and labels_to_shape raises ValueError in fit_from_string / string_to_aifeyn" % (nl,),
+                         "C18:to_list:sqrt-log-label-not-in-basis", input=dict(inp, labels=nl), observed="ValueError",
+                         expected="labels over the basis")
+                elif exc == "ValueError" and any(_unknown(lo, l) for l in nl):
+                    stats["outside_fragment"] += 1   # sympy's rewriting introduced a class outside the fragment (re, sign, ...)
+                    if stats.get("outside_fragment_example") is None:
+                        stats["outside_fragment_example"] = dict(inp, labels=nl)
+                elif exc == "ValueError" and "abs" in nl and "abs" not in flat:
+                    stats["abs"] += 1
+                    fail("a formula over the basis is converted to the labels %r: the Abs that the symbol table's pow/sqrt_abs/log_abs wrap around "
+                         "their argument is kept as a label 'abs' (to_list's 'Don't keep abs after pow or sqrt' branch is unreachable: the "
+                         "degree==1 branch precedes it) and labels_to_shape raises ValueError" % (nl,),
+                         "C18:to_list:abs-label-not-in-basis", input=dict(inp, labels=nl), observed="ValueError", expected="labels over the basis")
+                elif exc == "AttributeError" and rf == "1" and len(nl) >= 1 and _is_num(nl[0]):
+                    stats["root_number"] += 1
+                    fail("replace_floats=True on a formula whose tree is a single number %r raises AttributeError (parents[0] is None)" % (nl,),
+                         "C18:replace-floats:root-number-raises", input=dict(inp, labels=nl), observed="AttributeError", expected="['a0']")
+                elif exc == "ValueError" and any(l in ("nan", "zoo", "oo", "-oo", "i", "e", "pi") for l in nl):
+                    pass    # the formula has no finite real value (0/0, 1/0, ...) or a symbolic constant: outside the property
+                elif exc == "ValueError" and not nl:
+                    pass    # no parse at all (sympy rejects the string)
+                else:
+                    fail("conversion raises %s" % exc, "C18:raises:%s" % exc, input=dict(inp, labels=nl), observed=exc, expected="a label list")
+                continue
+            if labels is None:
+                continue
+            inp["labels"] = labels
+            # complexity == number of labels
+            if compl is not None and compl != len(labels):
+                fail("reported complexity differs from the number of labels", "C18:complexity-differs", input=inp, observed=compl, expected=len(labels))
+            if any(l in ("nan", "zoo", "oo", "-oo", "i", "e", "pi") for l in labels):
+                stats["skipped_symbolic_leaf"] += 1
+                continue
+            if any(_unknown(lo, l) for l in labels):
+                stats["outside_fragment"] += 1
+                if stats.get("outside_fragment_example") is None:
+                    stats["outside_fragment_example"] = dict(inp)
+                continue
+            # well-formed prefix list
+            if not lo.wellformed(labels):
+                if "-1" in labels and labels[0] == "*" and len(labels) == 2:
+                    stats["drops_operand"] += 1
+                    fail("labels %r are not a tree: to_list returns ['Mul'] + children[1].to_list() for Pow(..)*(-1) / Pow(..)/(-1), "
+                         "dropping the power; the reported complexity is 2" % (labels,),
+                         "C18:to_list:pow-times-minus-one-drops-operand", input=inp, observed=labels, expected="a well-formed prefix list of the formula")
+                else:
+                    fail("labels are not a well-formed prefix list", "C18:malformed", input=inp, observed=labels, expected="well-formed")
+                continue
+            if rf is not None:
+                for l in labels:
+                    if l in lo.ARITY and l not in flat:
+                        fail("label %r is not a basis label" % l, "C18:label-not-in-basis:%s" % l, input=inp, observed=labels, expected="labels over the basis")
+            if rf != "1":
+                # parameters come from the formula; the labels evaluate to the formula
+                extra = [l for l in labels if _is_par(l) and not re.search(r'\b%s\b' % l, s)]
+                if extra:
+                    fail("labels contain parameters %r the formula does not have although no replacement was requested" % extra,
+                         "C18:constant-became-parameter", input=inp, observed=labels, expected="constants kept")
+                try:
+                    g = _labels_fn(lo, labels)
+                except Exception as e:
+                    fail("labels cannot be evaluated: %s" % e, "C18:malformed", input=inp, observed=labels, expected="a tree")
+                    continue
+                res, det = _same(lo, g, f, rng, npar)
+                if res == 'diff':
+                    fail("labels evaluate to a different function than the formula (all power bases positive at this point)",
+                         "C18:function-differs", input=dict(inp, point=det), observed=det["lhs"], expected=det["rhs"])
+                elif res == 'undecided':
+                    stats["undecided"] += 1
+                else:
+                    stats["checked_function"] += 1
+                if rf == "0":
+                    base_labels = labels
+            else:
+                # replacement requested: same shape as without; only numbers/parameters change; numbering by position;
+                # a number directly under pow is kept
+                if base_labels is None or len(base_labels) != len(labels):
+                    fail("replace_floats changes the shape of the label list", "C18:replace-floats:shape", input=inp, observed=labels, expected=base_labels)
+                    continue
+                par = _parents(lo, base_labels)
+                inexp = _in_exponent(lo, base_labels)
+                k = 0
+                for j, (l0, l1) in enumerate(zip(base_labels, labels)):
+                    want = l0
+                    if _is_par(l0) or (_is_num(l0) and par[j] != 'pow'):
+                        want = "a%d" % k
+                        k += 1
+                    if l1 != want:
+                        fail("replace_floats: position %d is %r, expected %r (numbers not directly under pow and parameters become a0,a1,.. in order)" % (j, l1, want),
+                             "C18:replace-floats:wrong-label", input=dict(inp, without_replacement=base_labels), observed=labels, expected=want)
+                        break
+                    if _is_num(l0) and inexp[j] and l1 != l0:
+                        stats["nested_exponent_constant_replaced"] += 1
+                        if nested_example is None:
+                            nested_example = {"basis": bname, "formula": s, "labels": base_labels, "replaced": labels}
+        rep.case(key=("search", bname, s), nontrivial=any(c in s for c in "(*+/-"), sample=None)
+    stats["nested_exponent_example"] = nested_example
+    rep.extra["search"] = stats
 
 
-TRUSTED = []
-ASSUMPTIONS = []
-LEVEL_TEXT = ""
-LEVEL_NOTE = ""
-TECHNIQUE = ""
+TRUSTED = [
+    "Coq 8.16.1 kernel + vm_compute (no native_compute)",
+    "Print Assumptions: the list-level theorems (refutation witnesses, constants_kept, replace_floats_spec, no_param_in_exponent, "
+    "param_order_by_position, string_to_node_minimal) are closed under the global context; the theorems that mention real numbers or are "
+    "derived from the real-valued lemma (to_list_total, to_list_wellformed, to_list_sound, labels_in_basis_except_sqrt_log, choice_irrelevant) "
+    "list the standard-library axioms ClassicalDedekindReals.sig_not_dec, ClassicalDedekindReals.sig_forall_dec, "
+    "FunctionalExtensionality.functional_extensionality_dep and Classical_Prop.classic (all from Coq's Reals)",
+    "hand-written model coq/Model/ToList.v of DecoratedNode.__init__/is_unity/count_nodes/to_list, string_to_node's nanargmin choice, "
+    "the relabelling and replace-floats code of fit_from_string/string_to_aifeyn, labels_to_shape and check_tree's parents; tied to the source by "
+    "the correspondence run (every parse of every generated formula, vm_compute vs the real objects) on every check",
+    "sympy 1.14 (sympify, kernS, powsimp, factor, evalf, as_two_terms, str() of numbers, `Float == int/float` comparisons): an oracle, "
+    "represented by its structural dump; harness/corr/c18_impl.py's dumper (class names, .args order, exact and printed values of number atoms)",
+    "spec-side evaluators harness/lib/liboracle.py (mpmath, 30 digits)",
+]
+ASSUMPTIONS = [
+    "parse-oracle contract: each of the four sympy parses denotes the formula (not proved; checked numerically by search() on the selected parse)",
+    "a number atom's printed text (15 significant digits for Float) denotes its value: the soundness theorem assumes exactb (text value = exact value), "
+    "which holds for integers, p/q and short decimals; otherwise the labels agree with the formula to 15 digits (search() compares with tolerance)",
+    "the theorems' fragment (supportedb): Add/Mul of >= 2 arguments, Pow, one-argument classes exp/log/Abs/sin and the undefined functions kernS leaves "
+    "(inv, square, cube, sqrt_abs, log_abs, tenexp, log10_abs); number atoms Integer/Rational/Float and the singletons; symbols x and a<k>. "
+    "Other dumps (zoo, nan, I, E) are compared by the correspondence where the model is defined but are outside the theorems",
+    "str() of a compound constant never reads as a float nor equals '2'/'3' (the dumper refuses such nodes; none occurred)",
+    "soundness is stated where all power bases (except under a literal exponent -1 when inv is a basis operator) and log arguments are positive",
+    "is_float's eval() sees module globals of generator.py (e.g. a label 'rank' or 'size' would count as a float): labels of that kind are not produced by the grammar",
+    "check_ops=True and user-supplied locs of string_to_node are not modelled (no caller in the package uses them)",
+    "parents computed by the stack model equal the parents in the parsed tree: validated by correspondence against check_tree and by the spec-side parser in search(), not proved",
+]
+LEVEL_TEXT = ("Machine-checked theorems (Coq) on a faithful model of ESR's string-to-tree conversion: for EVERY basis and every expression of the fragment, "
+              "DecoratedNode/to_list produce a well-formed prefix list of the reported length whose tree evaluates (over the reals, ESR's |.|-reading) to "
+              "the sympy expression wherever power bases are positive; relabelling keeps constants, replacement touches exactly parameters and numbers not "
+              "directly under pow, numbering by position; the selected parse has the minimum count and any selection denotes the formula under the parse contract. "
+              "Two statements are REFUTED by witness and replayed on the real code: labels 'sqrt'/'log' outside bases that spell sqrt_abs/log_abs (F5), and "
+              "['Mul','-1'] for Pow(..)*(-1). Tests could only sample formulas; the case analysis of to_list (17 branches x renamings x bases) is covered for all inputs.")
+LEVEL_NOTE = ("Trusted: Coq kernel/vm_compute; the hand-written model (tied by running it in Coq against the real objects on every parse of 300/5000 grammar "
+              "formulas over the six shipped bases: to_list, count_nodes, string_to_node, fit_from_string labels); sympy's parses as an oracle; standard Reals axioms. "
+              "Not proved: sympy's four parses denote the formula; Float printing to 15 digits; parent computation vs tree structure.")
+TECHNIQUE = ("Coq proof by size induction over decorated nodes / nested induction over sympy dumps (string-exact model), real-valued semantics with Rpower/powerRZ; "
+             "refutations by vm_compute witnesses; correspondence by vm_compute on structural dumps of the real sympy parses; spec-side mpmath evaluation of labels vs formula")
